@@ -1,13 +1,73 @@
 import S3V.Base.Bytes
-/-! `ContentType = mime::Mime` (third-party crate `mime` 0.3.17) — placeholder, see below. -/
+import S3V.Model.DtoText
+/-!
+# `ContentType = mime::Mime` (third-party crate `mime` 0.3.17, src/parse.rs) — model on a subset
+
+`mime::parse` is an index-driven scanner with special cases (quoted values, `charset=utf-8` fast
+path, empty trailing segments, `*/*`). This model covers the subset
+
+    type "/" subtype *( ";" *SP name "=" value )      all four non-empty `token`s (mime's TOKEN_MAP)
+
+and gives, as the crate does on it: the essence `type/subtype` in lower case, the parameters with
+lower-cased names (and a lower-cased value for `charset`), and the stored source text (`as_ref()`,
+what `try_into_header_value` writes): the input with type, subtype, parameter names and charset
+values lower-cased, separators untouched. Everything else is answered UNMODELLED by the driver.
+No theorem is stated about this part (correspondence only).
+-/
 namespace S3V.Dto.ContentType
+
+/-- `TOKEN_MAP` -/
+def isToken (c : UInt8) : Bool :=
+  let n := c.toNat
+  (48 ≤ n && n ≤ 57) || (65 ≤ n && n ≤ 90) || (97 ≤ n && n ≤ 122) ||
+  n = 33 || (35 ≤ n && n ≤ 39) || n = 42 || n = 43 || n = 45 || n = 46 || n = 94 || n = 95 || n = 96 ||
+  n = 124 || n = 126
+
+def lower (c : UInt8) : UInt8 := if 65 ≤ c.toNat && c.toNat ≤ 90 then c + 32 else c
+def lowerAll (b : Bytes) : Bytes := b.map lower
+
+def isTok (b : Bytes) : Bool := !b.isEmpty && b.all isToken
+
+/-- `"charset"` -/
+def charsetName : Bytes := [99, 104, 97, 114, 115, 101, 116]
+
+structure Parsed where
+  essence : Bytes
+  params : List (Bytes × Bytes)
+  text : Bytes
+
+/-- one `;`-separated parameter segment: spaces, name, `=`, value -/
+def parseParam (seg : Bytes) : Option ((Bytes × Bytes) × Bytes) :=
+  let sp := seg.takeWhile (· = 32)
+  let rest := seg.drop sp.length
+  match S3V.Dto.splitOn 61 rest with
+  | [name, value] =>
+    if isTok name && isTok value then
+      let n := lowerAll name
+      let v := if n = charsetName then lowerAll value else value
+      some ((n, v), sp ++ n ++ [61] ++ v)
+    else none
+  | _ => none
+
+def parseSubset (s : Bytes) : Option Parsed :=
+  match S3V.Dto.splitOn 59 s with
+  | [] => none
+  | head :: segs =>
+    match S3V.Dto.splitOn 47 head with
+    | [t, st] =>
+      if isTok t && isTok st then
+        match segs.mapM parseParam with
+        | none => none
+        | some ps =>
+          let ess := lowerAll t ++ [47] ++ lowerAll st
+          some ⟨ess, ps.map (·.1), ess ++ (ps.map fun p => 59 :: p.2).flatten⟩
+      else none
+    | _ => none
 
 inductive Verdict where
   | agree (cls : String)
   | disagree (model : String)
   | specfail (cls detail : String)
   | unmodelled (reason : String)
-
-def judge (_s : Bytes) (_res : String) : Verdict := .unmodelled "ctype-not-modelled"
 
 end S3V.Dto.ContentType
